@@ -243,5 +243,11 @@ func modelQueryT(c *Case, changes []string, fixed bool, late bool) string {
 	if late {
 		lt = "1"
 	}
-	return "dialog\t" + fx + "\t" + na + "\t" + lt + "\t" + strings.Join(cs, "|") + "\t" + strings.Join(bs, "|") + "\t" + strings.Join(sp, "|")
+	var fl []string
+	for _, l := range []string{"configure terminal", "end", "reload cancel"} {
+		if b, ok := c.Fixed[l]; ok {
+			fl = append(fl, esc(l)+"="+behavEnc(b))
+		}
+	}
+	return "dialog\t" + fx + "\t" + na + "\t" + lt + "\t" + strings.Join(cs, "|") + "\t" + strings.Join(bs, "|") + "\t" + strings.Join(sp, "|") + "\t" + strings.Join(fl, "|")
 }
